@@ -597,3 +597,60 @@ Proof.
   split; [exact I|].
   vm_compute. repeat split; reflexivity.
 Qed.
+
+(* ====================================================================== *)
+(* A11. the exact search of KDE.Bounds() terminates (Epanechnikov, <= 1 boundary) *)
+(* ====================================================================== *)
+From MM Require Import Proofs.KdeBoundsTerm.
+(* (1) bisect on an L-Lipschitz f with f low <= tol and f high >= -tol never panics and returns a
+   point within n halvings whenever (high - low) L <= 2 tol 2^n (bracket invariant
+   f low < -tol, tol < f high forces high - low > 2 tol / L); (2) for an L-Lipschitz F that is
+   <= 0.005 left of A and >= 0.995 right of B each bracket expansion ends within n steps once n
+   initial widths reach A resp. B, and the whole search returns an interval for EVERY fuel from
+   some fuel0 on, every sample and boundary setting (existential fuel0: the bisection bound is
+   stated in (1)); (3) the Epanechnikov distribution function is Lipschitz with constant
+   3/(4h); (4) the model's Epanechnikov KDE.CDF with no boundary or one boundary (data inside
+   it: bounds_ok_half, Proofs/KdeBoundsTerm.v) is Lipschitz with 3/(2h) (3/(4h) without
+   boundary), so its Bounds() search returns, from some fuel on, an interval that the acceptance
+   test accepts.  Two boundaries are not covered; for the delta kernel the exact search does
+   not terminate in general (C12_ex_bounds_search). *)
+Theorem C12_bounds_search_terminates :
+  (forall (f : Q -> Q) (L tol : Q), 0 < L -> 0 < tol ->
+     (forall x y : Q, x <= y -> f y - f x <= L * (y - x)) ->
+     forall (low high : Q) (n fuel : nat), low <= high -> f low <= tol -> - tol <= f high -> (n < fuel)%nat ->
+       (high - low) * L <= 2 * tol * qpow 2 n ->
+       exists x : Q, bisect f low high tol fuel = BisRet x true) /\
+  (forall (F : Q -> Q) (L A B : Q), 0 < L ->
+     (forall x y : Q, x <= y -> F y - F x <= L * (y - x)) ->
+     (forall x : Q, x <= A -> F x <= lowY) -> (forall x : Q, B <= x -> highY <= F x) ->
+     (forall (fuel n : nat) (lowX highX : Q), (n < fuel)%nat -> lowX < highX ->
+        lowX - Qofnat n * (highX - lowX) <= A ->
+        exists r : Q, expand_low F fuel lowX highX = Some r /\ r <= lowX /\ F r <= lowY) /\
+     (forall (fuel n : nat) (lowX highX : Q), (n < fuel)%nat -> lowX < highX ->
+        B <= highX + Qofnat n * (highX - lowX) ->
+        exists r : Q, expand_high F fuel lowX highX = Some r /\ highX <= r /\ highY <= F r) /\
+     (forall (b : bconf) (xs : list Q), b <> BBad -> xs <> [] ->
+        exists fuel0 : nat, forall fuel : nat, (fuel0 <= fuel)%nat ->
+          exists lo hi : Q, bounds_search F b fuel xs = BrOk lo hi)) /\
+  (forall h s t : Q, 0 < h -> s <= t -> epan_cdf h t - epan_cdf h s <= (3 # 4) / h * (t - s)) /\
+  (forall k : kde, kde_ok k -> k_kernel k = KEpan -> bounds_ok_half k ->
+     (forall x y : Q, x <= y -> kde_cdf_q k y - kde_cdf_q k x <= 2 * ((3 # 4) / k_h k) * (y - x)) /\
+     exists fuel0 : nat, forall fuel : nat, (fuel0 <= fuel)%nat ->
+       exists lo hi clo chi : Q, kde_bounds_search k fuel = BrOk lo hi /\
+         kde_cdf k lo = Some (XFin clo) /\ kde_cdf k hi = Some (XFin chi) /\
+         kde_bounds_ok (k_b k) (XFin lo) (XFin hi) (chi - clo) = true).
+Proof. exact Proofs.KdeBoundsTerm.G_bounds_search_terminates. Qed.
+Print Assumptions C12_bounds_search_terminates.
+
+(* the hypotheses are satisfiable; on sample {0,1,2}, h = 1 fuel 9 suffices, fuel 5 does not *)
+Example C12_ex_bounds_term :
+  bounds_ok_half (ex_bk KEpan BNone) /\ bounds_ok_half (ex_bk KEpan (BLower (-1 # 2))) /\
+  bounds_ok_half (ex_bk KEpan (BUpper 3)) /\
+  search_accepted (ex_bk KEpan BNone) 9 = true /\ kde_bounds_search (ex_bk KEpan BNone) 5 = BrFuel /\
+  search_accepted (ex_bk KEpan (BLower (-1 # 2))) 20 = true /\
+  search_accepted (ex_bk KEpan (BUpper 3)) 20 = true.
+Proof.
+  split; [exact I|]. split; [exists 2; repeat constructor; cbn; lra|].
+  split; [exists 0; repeat constructor; cbn; lra|].
+  vm_compute. repeat split; reflexivity.
+Qed.
